@@ -1,6 +1,9 @@
 use crate::locking::IggySharedMutFn;
 use std::sync::Arc;
+#[cfg(not(kani))]
 use tokio::sync::{RwLock as TokioRwLock, RwLockReadGuard, RwLockWriteGuard};
+#[cfg(kani)]
+use crate::verif_model::lock::{RwLock as TokioRwLock, RwLockReadGuard, RwLockWriteGuard};
 
 #[cfg(feature = "tokio_lock")]
 #[derive(Debug)]
